@@ -1,4 +1,6 @@
 import NdnModel.Cascade
+import NdnModel.CascadeLvs
+import NdnModel.Lvs.Proto
 /-  Line protocol for the cascade / trust-schema validator model:
     `C14 <fuel> <objs> <world> <insts> <steps>`
       objs  ::= obj;obj;…          obj  ::= <name>:<kl|~>:<h|r|e|d|o>:<signer key id|~>:<content|~>
@@ -10,7 +12,17 @@ import NdnModel.Cascade
     The ground truth "who signed" instantiates `crypto`: the library verifies o under k iff o was
     signed with the private key of k.
     answer: `ok <inst results> <step results>`; inst result ::= ok | err:<class>;
-      step result ::= <A|R|F|E:<class>|X>@<fetched names joined by .>   (X: instance was not built) -/
+      step result ::= <A|R|F|E:<class>|X>@<fetched names joined by .>   (X: instance was not built)
+
+    The validator over a Light VerSec model (tokens of NdnModel/Lvs/Proto.lean):
+    `C14 lvs <model> <env> <name>/<name>/… <links>`       links ::= . | <a>:<p>:<0|1>,…
+    answer: `ok <0|1 validate_user_fns> <root_of_trust rule names , -separated | .> <r>/<r>/… <verdicts>`
+      with, per candidate anchor name,  r ::= <matched rule names , -separated | . | E:<class>>~<ok | err:<class>>
+      where the second part is `lvs_validator`'s outcome for a properly self-signed anchor of that name
+      (`constructLvs` with a crypto that verifies the anchor), and, per link `<a>:<p>:<b>`, the verdict
+      (`A`/`R`/`F`, `X` if the validator could not be built) of the validator anchored at name number `a`
+      on a packet named name number `p` whose key locator is the anchor's name and whose signature does
+      (1) / does not (0) verify under the anchor's key. -/
 namespace Ndn.Drv.C14
 open Ndn Ndn.Cascade
 
@@ -35,7 +47,7 @@ def parseKey (s : String) : Option (Option Key) :=
       else if c == 'd' then some (some ⟨.ed, n⟩) else if c == 'b' then some (some ⟨.bad, n⟩) else none
   | [] => none
 
-def parseObj (s : String) : Option Obj :=
+def parseObj (s : String) : Option (Obj Name) :=
   match s.splitOn ":" with
   | [n, kl, t, sg, c] => do
     let n ← n.toNat?
@@ -46,7 +58,7 @@ def parseObj (s : String) : Option Obj :=
     pure ⟨n, kl, t, sg, c⟩
   | _ => none
 
-def parseWorldEntry (objs : List Obj) (s : String) : Option (Name × Outcome) :=
+def parseWorldEntry (objs : List (Obj Name)) (s : String) : Option (Name × Outcome Name) :=
   match s.splitOn "=" with
   | [n, o] => do
     let n ← n.toNat?
@@ -59,7 +71,7 @@ def parseWorldEntry (objs : List Obj) (s : String) : Option (Name × Outcome) :=
     else none
   | _ => none
 
-def lookupWorld : List (Name × Outcome) → Name → Option Outcome
+def lookupWorld : List (Name × Outcome Name) → Name → Option (Outcome Name)
   | [], _ => none
   | (m, o) :: r, n => if m = n then some o else lookupWorld r n
 
@@ -69,10 +81,10 @@ def parsePair (s : String) : Option (Nat × Nat) :=
   | _ => none
 
 structure InstSpec where
-  setup   : Setup
+  setup   : Setup Name
   allowed : List (Nat × Nat)
 
-def parseInst (objs : List Obj) (s : String) : Option InstSpec :=
+def parseInst (objs : List (Obj Name)) (s : String) : Option InstSpec :=
   match s.splitOn "/" with
   | [a, u, roots, matched, allowed] => do
     let a ← a.toNat?
@@ -88,7 +100,7 @@ def parseStep (s : String) : Option (Nat × Nat) :=
   | [a, b] => do pure (← a.toNat?, ← b.toNat?)
   | _ => none
 
-def groundCrypto (k : Key) (o : Obj) : Bool := o.sig == some k.id
+def groundCrypto {N : Type} (k : Key) (o : Obj N) : Bool := o.sig == some k.id
 
 def showVerdict : Option Verdict → String
   | none => "F"
@@ -99,15 +111,15 @@ def showVerdict : Option Verdict → String
 def showLog (l : List Name) : String := ".".intercalate (l.map toString)
 
 /-- instances that could be built, with their environment -/
-def buildInst (world : Name → Option Outcome) (i : InstSpec) : Except PyErr Env :=
+def buildInst (world : Name → Option (Outcome Name)) (i : InstSpec) : Except PyErr (Env Name) :=
   match construct groundCrypto i.setup with
   | .ok (n, k) => .ok ⟨fun a b => i.allowed.contains (a, b), groundCrypto, world, n, k⟩
   | .error e => .error e
 
-def dummyEnv : Env := ⟨fun _ _ => false, groundCrypto, fun _ => none, 0, ⟨.bad, 0⟩⟩
+def dummyEnv : Env Name := ⟨fun _ _ => false, groundCrypto, fun _ => none, 0, ⟨.bad, 0⟩⟩
 
-def runSteps (insts : List (Except PyErr Env)) (objs : List Obj) (fuel : Nat) :
-    (Nat → Cache) → List (Nat × Nat) → Option (List String)
+def runSteps (insts : List (Except PyErr (Env Name))) (objs : List (Obj Name)) (fuel : Nat) :
+    (Nat → Cache Name) → List (Nat × Nat) → Option (List String)
   | _, [] => some []
   | cs, (i, oi) :: r =>
     match insts[i]?, objs[oi]? with
@@ -118,8 +130,58 @@ def runSteps (insts : List (Except PyErr Env)) (objs : List Obj) (fuel : Nat) :
     | some (.error _), some _ => (runSteps insts objs fuel cs r).map ("X@" :: ·)
     | _, _ => none
 
+def joinOr (l : List String) : String := if l.isEmpty then "." else ",".intercalate l
+
+/-- the signature token says whether the anchor's key (id 0) produced it -/
+def lvsCrypto (k : Key) (o : Obj LName) : Bool := o.sig == some k.id
+
+/-- a properly self-signed anchor of the given name -/
+def lvsAnchor (name : LName) : Obj LName := ⟨name, some name, .ecdsa, some 0, some ⟨.ec, 0⟩⟩
+
+def lvsOne (m : Lvs.Model) (env : Lvs.FnEnv) (name : LName) : String :=
+  (match anchorMatches m env name with
+    | .ok l => joinOr l
+    | .error e => "E:" ++ e.name) ++ "~" ++
+  (match constructLvs lvsCrypto m env (lvsAnchor name) ⟨.ec, 0⟩ with
+    | .ok _ => "ok"
+    | .error e => "err:" ++ e.name)
+
+def parseLink (s : String) : Option (Nat × Nat × Bool) :=
+  match s.splitOn ":" with
+  | [a, p, b] => do
+    let a ← a.toNat?
+    let p ← p.toNat?
+    let b ← if b == "1" then some true else if b == "0" then some false else none
+    pure (a, p, b)
+  | _ => none
+
+def lvsLink (m : Lvs.Model) (env : Lvs.FnEnv) (names : List LName) (l : Nat × Nat × Bool) : Option String :=
+  match names[l.1]?, names[l.2.1]? with
+  | some an, some pn =>
+    match constructLvs lvsCrypto m env (lvsAnchor an) ⟨.ec, 0⟩ with
+    | .error _ => some "X"
+    | .ok (n, k) =>
+      let I : Inst := ⟨m, env, lvsCrypto, fun _ => none, n, k⟩
+      some (showVerdict (validate I.env 3 [] ⟨pn, some an, .ecdsa, some (if l.2.2 then 0 else 1), none⟩).verdict)
+  | _, _ => none
+
+def handleLvs (args : List String) : String :=
+  match args with
+  | ["lvs", ms, es, nss, links] =>
+    match Lvs.Proto.parseModel ms, Lvs.Proto.parseEnv es, (nss.splitOn "/").mapM fromHexList,
+          (splitList links ",").mapM parseLink with
+    | some m, some env, some names, some links =>
+      match links.mapM (lvsLink m env names) with
+      | some vs =>
+        "ok " ++ (if userFnsOk m env then "1" else "0") ++ " " ++ joinOr (rootOfTrust m) ++ " " ++
+          "/".intercalate (names.map (lvsOne m env)) ++ " " ++ joinOr vs
+      | none => "bad-op"
+    | _, _, _, _ => "bad-op"
+  | _ => "bad-op"
+
 def handle (args : List String) : String :=
   match args with
+  | "lvs" :: _ => handleLvs args
   | [fuel, objs, world, insts, steps] =>
     match fuel.toNat?, (splitList objs ";").mapM parseObj with
     | some fuel, some objs =>
